@@ -26,7 +26,7 @@ KL = [0.13020248308889008087881763, 0.56116298177510838456196441, -0.38947496264
 
 def tasks(tier, seed):
     out = []
-    n = 48 if tier == 'quick' else 320
+    n = 48 if tier == 'quick' else common.thorough(320)
     for k in range(n):
         out.append(('vt.props.c10', 't3_case', {'seed': seed, 'k': k, 'backend': 'T3', 'd': 2 + k % 4,
                                                 'kind': ['real', 'complex', 'skew'][(k // 4) % 3], 'hom': (k // 12) % 2 == 0,
